@@ -93,3 +93,45 @@ pub fn record_component(component: &RecordComponent) -> RecordComponentView<'_> 
 		attributes: &component.attributes,
 	}
 }
+
+/// Events emitted by the class writer while the monitors record (see [`start_recording`]).
+#[derive(Debug, Clone, PartialEq)]
+pub enum Event {
+	/// End of one attempt of writing a `Code` attribute's bytecode.
+	CodeAttempt {
+		/// Number of bytes emitted in this attempt.
+		code_len: usize,
+		/// Number of instruction indices marked as needing the wide form after this attempt.
+		wide: usize,
+		/// Whether another attempt follows.
+		retry: bool,
+	},
+	/// The constant pool as it is written out.
+	Pool {
+		count: u16,
+		entries: usize,
+		two_slot_entries: usize,
+	},
+}
+
+thread_local! {
+	static EVENTS: std::cell::RefCell<Option<Vec<Event>>> = const { std::cell::RefCell::new(None) };
+}
+
+/// Starts (or restarts) recording events on this thread.
+pub fn start_recording() {
+	EVENTS.with(|events| *events.borrow_mut() = Some(Vec::new()));
+}
+
+/// Stops recording on this thread and returns what was recorded.
+pub fn take_events() -> Vec<Event> {
+	EVENTS.with(|events| events.borrow_mut().take()).unwrap_or_default()
+}
+
+pub(crate) fn emit(event: impl FnOnce() -> Event) {
+	EVENTS.with(|events| {
+		if let Some(events) = events.borrow_mut().as_mut() {
+			events.push(event());
+		}
+	});
+}
